@@ -18,9 +18,10 @@ EVENT_PUBLICATIONS = (PROCESS, PROCESS_REMOVED, PROCESS_DISABILITY)
 
 class FuzzRun:
 
-    def __init__(self, case, knobs):
+    def __init__(self, case, knobs, monitors=()):
         self.case = case
         self.knobs = knobs
+        self.monitors = list(monitors)
         self.rng = random.Random(case['seed'])
         self.counters = {}
         self.violations = []
@@ -68,6 +69,9 @@ class FuzzRun:
                                                  'isolated_seq': None, 'isolated_t': None, 'auth_queue': []}
             w.on_hook('instance_state', self.on_instance_state)
             w.listeners.append(self.on_event)
+            self.world = w
+            for monitor in self.monitors:
+                monitor.attach(self)
             for _ in range(rng.choice(self.knobs.get('n_steps', [60, 100, 160]))):
                 self.one_action()
                 if w.steps > 60000:
@@ -78,6 +82,10 @@ class FuzzRun:
                 l2.advance(TICK)
             l2.drain()
             self.final_checks()
+            for monitor in self.monitors:
+                self.violations.extend(monitor.finish(self) or [])
+                for name, value in monitor.counters.items():
+                    self.count(name, value)
         finally:
             l2.close()
         return self.violations
@@ -184,6 +192,9 @@ class FuzzRun:
         if header in (HOST_STATISTICS, PROCESS_STATISTICS) and rec['state'] != 'ISOLATED':
             header = PROCESS
         namespec = rng.choice(['app1:p1', 'app1:p2_01', 'app1:p2_02', 'app2:q1'])
+        if self.knobs.get('unknown_process_p') and rng.random() < self.knobs['unknown_process_p']:
+            # an event about a process, or an application, that the local instance has never heard of
+            namespec = rng.choice(['app1:ghost', 'ghost:p1', 'app2:p1'])
         if header == PROCESS:
             state = rng.choice([0, 10, 20, 20, 100, 200])
             if rec['state'] in ('CHECKED', 'RUNNING'):
@@ -195,6 +206,9 @@ class FuzzRun:
         elif header in (PROCESS_ADDED, PROCESS_DISABILITY):
             infos = puppet.all_process_info()
             body = dict(rng.choice(infos))
+            if header == PROCESS_DISABILITY and ':' in namespec and namespec.split(':')[1] in ('ghost',) or \
+                    namespec.startswith('ghost'):
+                body['group'], body['name'] = namespec.split(':')
             if header == PROCESS_DISABILITY:
                 body['disabled'] = rng.random() < 0.5
         elif header == PROCESS_REMOVED:
